@@ -187,12 +187,13 @@ def scen_ping(rng, tier):
                     mk = b"\x0a\x0b\x0c\x0d" if srv else None
                     for silent_after in ([0, 1, 3, None] if tier == "thorough" else [rng.choice([0, 1, 2]), None]):
                         for rtt in ([SEC // 10, SEC // 2, SEC - 8] if tier == "thorough" else [rng.choice([SEC // 10, SEC // 2])]):
-                            for data_instead in ((0, 1, 2) if T else (0,)):
+                            for data_instead in ((0, 1, 2, 3) if T else (0,)):
                                 # simulate the SPEC: ping k goes out at p_k; answered at p_k + rtt; next at floor(answer + I)
                                 ev, exp_pings, t, seq = [], [], floor_s(I), 0
                                 last_answer = 0
                                 unanswered_no_timeout = False
                                 drop_at = None
+                                in_msg = False     # data_instead == 3: the peer is inside a fragmented message
                                 horizon = 14 * SEC
                                 while t < horizon:
                                     seq += 1
@@ -221,7 +222,15 @@ def scen_ping(rng, tier):
                                         drop_at = floor_s(t + T)
                                         ev += probes(drop_at)
                                         break
-                                    if data_instead == 2 and restart:
+                                    if data_instead == 3:
+                                        # the traffic is a NON-FINAL fragment of one long message (a peer busy streaming): with
+                                        # autoPingRestartOnAnyTraffic every data frame counts, not only the one that ends a message
+                                        fr = wsgen.frame(0 if in_msg else 2, b"part", fin=0, mask=mk)
+                                        in_msg = True
+                                        ev.append((ta, "feed," + fr.hex()))
+                                        if not restart:
+                                            ev.append((ta, "feed," + wsgen.frame(10, ping_payload(seq, size), mask=mk).hex()))
+                                    elif data_instead == 2 and restart:
                                         # a data frame restarts the cycle; the (now stale) pong still arrives a little later
                                         # and must change nothing
                                         ev.append((ta, "feed," + wsgen.frame(2, b"data", mask=mk).hex()))
